@@ -1,6 +1,7 @@
 package checks
 
 import (
+	"bytes"
 	"fmt"
 	"net"
 	"net/netip"
@@ -98,6 +99,11 @@ type c12World struct {
 	uniq    uint32
 	closed  bool
 	avoid   map[string]bool
+	// emitAt: event stamp at which a written payload entered the wire (set under the world lock by OnSend)
+	emitMu sync.Mutex
+	emitAt map[string]int64
+	// lastEmit: emission stamp of the datagram of the doWrite that just returned (0 = none left the socket)
+	lastEmit int64
 }
 
 func (w *c12World) stamp() int64 { return w.seq.Add(1) }
@@ -115,6 +121,14 @@ func c12Avoid() map[string]bool {
 func newC12World(c *core.Ctx) *c12World {
 	t := c.T
 	w := &c12World{c: c, w: simnet.NewWorld(), byBytes: map[string]int{}, port: 5000, avoid: c12Avoid()}
+	w.emitAt = map[string]int64{}
+	w.w.OnSend = func(d *simnet.Datagram) {
+		if bytes.HasPrefix(d.Payload, []byte("out-")) {
+			w.emitMu.Lock()
+			w.emitAt[string(d.Payload)] = w.stamp()
+			w.emitMu.Unlock()
+		}
+	}
 	w.host = w.w.SimpleHost("muxhost", "10.0.0.1", "fd00::1")
 	w.host.AddrPortConns = t.Bias(1, 2, "addrport")
 	w.dual = !t.Bias(1, 4, "specific-v4")
@@ -232,6 +246,7 @@ func (w *c12World) doGet(u, fam, hidx int, useAP bool) bool {
 }
 
 func (w *c12World) doWrite(hidx, a int, mapped, useAP bool) bool {
+	w.lastEmit = 0
 	h := w.handles[hidx]
 	if h == nil || h.conn == nil {
 		return false
@@ -245,6 +260,9 @@ func (w *c12World) doWrite(hidx, a int, mapped, useAP bool) bool {
 		ip := ap.Addr().AsSlice()
 		_, err = h.conn.WriteTo(payload, &net.UDPAddr{IP: ip, Port: int(ap.Port())})
 	}
+	w.emitMu.Lock()
+	w.lastEmit = w.emitAt[string(payload)]
+	w.emitMu.Unlock()
 	return err == nil
 }
 
@@ -630,6 +648,7 @@ type c12TaskOp struct {
 	pay       *c12Pay
 	out       c12Res
 	call, ret int64
+	emit      int64 // stamp at which the datagram of a write entered the wire (0 = it never did)
 	done      bool
 	skipped   bool
 }
@@ -641,6 +660,7 @@ func (w *c12World) exec(op *c12TaskOp) {
 		op.out.OK = w.doGet(op.in.U, op.in.F, op.in.H, op.useAP)
 	case c12OpWrite:
 		op.out.OK = w.doWrite(op.in.H, op.in.A, op.mapped, op.useAP)
+		op.emit = w.lastEmit
 	case c12OpIn:
 		if !w.arrive(op.pay) {
 			op.skipped = true
@@ -660,6 +680,12 @@ func (w *c12World) exec(op *c12TaskOp) {
 		op.out.OK = true
 	}
 	op.ret = w.stamp()
+	if op.emit != 0 && op.emit < op.ret {
+		// "most recently wrote to the source address": once the datagram is on the wire the peer can answer
+		// it, so the binding must be in effect by then - the write takes effect between its call and the
+		// emission of its datagram, not merely before WriteTo returns
+		op.ret = op.emit
+	}
 	op.done = true
 }
 
